@@ -35,7 +35,7 @@ CHECKS = {
   note="Trusted: the reference model and the identity function of pool items (pairwise distinct ids, URL-shaped and opaque; what the items hold in their own lists may lack ids). One caller goroutine per collection by contract."),
  "C04": dict(
   level="fault_enumeration",
-  text="Writer -> faulty wire/disk -> reader simulation: every encoding the library, a repository mock, a peer-style JSON writer or a foreign-schema gob writer produces is damaged by storage/transport faults (torn write at every offset, single-bit flips at every position, chunk drop/duplicate/zero/swap, stale tail, splice, and record-level faults of a field-granular store: a text cut at a column width, a lost field, a value written under the wrong key, two values swapped; composed up to three in the seeded tier) and handed to every exported decode entry point; whatever value comes back is inspected, compared, re-encoded in both codecs and formatted. Oracles: no panic, no process death (stack overflow, fatal throw with checkptr on), time proportional to the input in simulated time (executed statements plus bytes handed to bulk primitives), bounded allocation and retention. Decides C04 for byte strings within three faults of a produced encoding, not for all byte strings.",
+  text="Writer -> faulty wire/disk -> reader simulation: every encoding the library, a repository mock, a peer-style JSON writer or a foreign-schema gob writer produces is damaged by storage/transport faults (torn write at every offset, single-bit flips at every position, chunk drop/duplicate/zero/swap, stale tail, splice, and record-level faults of a field-granular store: a text cut at a column width, a lost field, a value written under the wrong key, two values swapped, a text overwritten by a fill pattern; composed up to three in the seeded tier) and handed to every exported decode entry point; whatever value comes back is inspected, compared, re-encoded in both codecs and formatted. Oracles: no panic, no process death (stack overflow, fatal throw with checkptr on), time proportional to the input in simulated time (executed statements plus bytes handed to bulk primitives), bounded allocation and retention. Decides C04 for byte strings within three faults of a produced encoding, not for all byte strings.",
   ref="§4", technique="deterministic simulation with fault injection: fault-enumerating and seeded faulty wire between real encoder and real decoders, process-isolated crash oracle, minimised exact replays",
   note="Trusted: the Go runtime's checkptr instrumentation (turns an out-of-bounds pointer view into a deterministic throw), the step counter inserted by the instrumenter, the parent's death classification. Inputs that are neither a damaged encoding nor a peer's spelling (nesting beyond 32 levels, byte strings built to collide or exhaust) are outside this check."),
  "C12": dict(
